@@ -686,7 +686,10 @@ def _preimport():
 
     req = R.get("mass_p1_interval")
     objs, _ = req.build()
-    ffcx.compiler.compile_ufl_objects(list(objs), ffcx.options.get_options({}), namespace="warm")
+    try:  # a warm-up only: if the tree under test cannot compile it, the workers will say so
+        ffcx.compiler.compile_ufl_objects(list(objs), ffcx.options.get_options({}), namespace="warm")
+    except Exception:
+        pass
     _ffi("float64")
 
 
